@@ -108,7 +108,8 @@ def random_cmdline(rng, input_names):
     c = rng.random()
     if c < 0.25:
         extras += rng.choice([["-t", "3"], ["--iters=1"], ["-t0"], ["--iters=abc"], ["-t", "100"], ["-t-1"]])
-    if rng.random() < 0.25:
+    for _ in range(rng.choice([1, 1, 2, 3]) if rng.random() < 0.3 else 0):
+        # several defines: used and unused ones in either order
         extras += rng.choice([["-dFLAG"], ["-dFLAG=true"], ["-dFLAG=false"], ["-dx=5"], ["-dx=0x10"], ["-dx=-3"],
                               ["-dx="], ["-dx=-"], ["-dx=1=2"], ["-d", "x=zz"], ["-dnosuch=1"], ["-dx"], ["-dx=0x"]])
     if rng.random() < 0.15:
